@@ -184,6 +184,37 @@ class JobResult:
         return tot, ok, bad
 
 
+def parse_cbmc_text(out):
+    """plain-text UI (the JSON UI always embeds full traces for failed properties, which can be gigabytes for
+    symbolic-size objects).  returns (results, status, messages) in the shape of parse_cbmc_json"""
+    results, msgs = [], []
+    cur_file, cur_fn = '', ''
+    status = None
+    for line in out.split('\n'):
+        m = re.match(r'^(\S.*) function (\S+)$', line)
+        if m and not line.startswith('['):
+            cur_file, cur_fn = m.group(1), m.group(2)
+            continue
+        m = re.match(r'^\[([^\]]+)\] (?:line (\d+) )?(.*): (SUCCESS|FAILURE|UNKNOWN|ERROR)\s*$', line)
+        if m:
+            results.append(dict(property=m.group(1), status=m.group(4), description=m.group(3),
+                                sourceLocation=dict(file=cur_file, line=m.group(2) or '', function=cur_fn)))
+            continue
+        if line.startswith('VERIFICATION SUCCESSFUL'):
+            status = 'success'
+        elif line.startswith('VERIFICATION FAILED'):
+            status = 'failure'
+        elif line.startswith('VERIFICATION ERROR') or 'Out of memory' in line or line.startswith('CONVERSION ERROR') or line.startswith('Usage error') or 'Unknown option' in line:
+            msgs.append(line)
+            if status is None:
+                status = None
+        elif 'ignoring forall' in line or 'ignoring exists' in line or line.startswith('**** WARNING'):
+            msgs.append(line)
+    if status is None:
+        return None, None, msgs or [out[-800:]]
+    return results, status, msgs
+
+
 def parse_cbmc_json(out):
     try:
         data = json.loads(out)
@@ -347,7 +378,7 @@ def run_job(job, unit, workdir, log=print):
         # 3. cbmc
         flags, env = solver_flags(job.get('solver'), workdir)
         checks = job.get('checks', DEFAULT_CHECKS)
-        cmd = ['cbmc', cur, '--json-ui', '--object-bits', str(job.get('objbits', 10)), '--no-malloc-may-fail'] + checks + flags
+        cmd = ['cbmc', cur, '--object-bits', str(job.get('objbits', 10)), '--no-malloc-may-fail'] + checks + flags
         if mode == 'harness':
             cmd += ['--unwind', str(job.get('harness_unwind', 8)), '--unwinding-assertions']
         for p in job.get('properties', []):
@@ -386,7 +417,7 @@ def run_job(job, unit, workdir, log=print):
                     raise Undecided('solver timeout after %ss (split group)' % job.get('timeout', 300))
                 if rc == -8:
                     raise Undecided('solver killed: out of memory (split group)')
-                r_, s_, m_ = parse_cbmc_json(out)
+                r_, s_, m_ = parse_cbmc_text(out)
                 if r_ is None or s_ is None or rc not in (0, 10):
                     raise Undecided('cbmc error rc=%s: %s' % (rc, ('\n'.join(m_ or []) or err or out)[-2000:]))
                 results += r_
@@ -400,13 +431,13 @@ def run_job(job, unit, workdir, log=print):
             rc, out, err, dt = sh(cmd, job.get('timeout', 300), env=env)
             res.cmds.append(' '.join(cmd))
             res.solver_seconds = dt
-            with open(os.path.join(jd, 'cbmc.json'), 'w') as f:
+            with open(os.path.join(jd, 'cbmc.txt'), 'w') as f:
                 f.write(out)
             if rc == -9:
                 raise Undecided('solver timeout after %ss' % job.get('timeout', 300))
             if rc == -8:
                 raise Undecided('solver killed: out of memory')
-            results, status, msgs = parse_cbmc_json(out)
+            results, status, msgs = parse_cbmc_text(out)
             res.log = '\n'.join(msgs)[-4000:]
             if results is None or status is None or (rc not in (0, 10)):
                 raise Undecided('cbmc error rc=%s: %s' % (rc, (res.log or err or out)[-2000:]))
@@ -461,14 +492,14 @@ def run_sweep(job, res, jd, cfile, hname, workdir, t_start):
         rc, out, err, dt = sh(['goto-cc', '--function', hname, cfile, '-o', gb, '-DQX_SWEEP=%s' % v], 120)
         if rc != 0:
             return v, None, 'goto-cc failed: ' + (err + out)[-500:]
-        cmd = ['cbmc', gb, '--json-ui', '--object-bits', str(job.get('objbits', 10)), '--no-malloc-may-fail', '--unwind', str(job.get('harness_unwind', 8)),
+        cmd = ['cbmc', gb, '--object-bits', str(job.get('objbits', 10)), '--no-malloc-may-fail', '--unwind', str(job.get('harness_unwind', 8)),
                '--unwinding-assertions'] + checks + flags
         rc, out, err, dt = sh(cmd, job.get('timeout', 300), env=env)
         try:
             os.remove(gb)
         except OSError:
             pass
-        results, status, msgs = parse_cbmc_json(out)
+        results, status, msgs = parse_cbmc_text(out)
         if results is None or status is None or rc not in (0, 10):
             return v, None, 'cbmc error rc=%s %s' % (rc, (err or out)[-300:])
         return v, results, ''
